@@ -186,9 +186,6 @@ mut("c15-bounds-comment-cell-zero", "C15", "KEEP", "hclwrite/format.go",
 mut("c15-bounds-keep-hoisted-top", "C15", "KEEP", "hclwrite/format.go",
     "\t\t\tfor closed > 0 && len(indents) > 0 {\n\t\t\t\tswitch {\n\n\t\t\t\tcase closed > indents[len(indents)-1]:\n\t\t\t\t\tclosed -= indents[len(indents)-1]\n\t\t\t\t\tindents = indents[:len(indents)-1]",
     "\t\t\tfor closed > 0 && len(indents) != 0 {\n\t\t\t\ttop := len(indents) - 1\n\t\t\t\tswitch {\n\n\t\t\t\tcase closed > indents[top]:\n\t\t\t\t\tclosed -= indents[top]\n\t\t\t\t\tindents = indents[:top]", "")
-mut("c15-bounds-keep-early-return", "C15", "KEEP", "hclsyntax/structure.go",
-    "\tif len(b.Blocks) > 0 {\n\t\texample := b.Blocks[0]\n",
-    "\tif len(b.Blocks) >= 1 {\n\t\tblocks := b.Blocks\n\t\texample := blocks[0]\n", "")
 mut("c15-bounds-json-scan-guard", "C15", "MUST", "json/scanner.go",
     "\t\tfirst := buf[0]\n", "\t\tfirst := buf[0]\n\t\t_ = buf[1]\n", "bounded.index")
 mut("c15-bounds-var-scan-leq", "C15", "MUST", "json/scanner.go",
@@ -417,3 +414,8 @@ mut("c06-unknown-body-unmarked", "C06", "MUST", "hcldec/spec.go",
     "return cty.UnknownVal(s.impliedType().WithoutOptionalAttributesDeep()), diags\n\t\t}\n\t}\n\tval, _, childDiags", "bodymarks.unknown")
 mut("c04-native-justattrs-ignores-hidden-blocks", "C04", "MUST", "hclsyntax/structure.go",
     "\t\tif _, hidden := b.hiddenBlocks[example.Type]; hidden {\n\t\t\t// already consumed by an earlier PartialContent call\n\t\t\tcontinue\n\t\t}\n", "", "hidden.honoured")
+mut("rename-extendSchema", "C18", "RENAME", "ext/dynblock", "extendSchema", "schemaWithDynamic")
+mut("rename-setValue", "C17", "RENAME", "hclsyntax", "setValue", "bindValue")
+mut("rename-numberLitValue", "C11", "RENAME", "hclsyntax", "numberLitValue", "numberTokenValue")
+mut("rename-parseTemplateParts", "C11", "RENAME", "hclsyntax", "parseTemplateParts", "parseTemplateTokens")
+mut("rename-prepareBodyVal", "C06", "RENAME", "hcldec", "prepareBodyVal", "withBodyMarks")
